@@ -284,6 +284,31 @@ Proof.
   - cbn. rewrite IH. f_equal. f_equal. rewrite <- app_assoc. reflexivity.
 Qed.
 
+Lemma oget_in_nodup (d : odict) k v : NoDup (okeys d) -> In (k, v) d -> oget d k = Some v.
+Proof.
+  induction d as [|[k' v'] r IH]; cbn; [intros _ []|]. intros Hnd Hin. inversion Hnd as [|x l Hnot Hnd']; subst.
+  destruct Hin as [H|H].
+  - injection H as -> ->. rewrite (keqb_refl keqb keqb_spec). reflexivity.
+  - destruct (keqb k' k) eqn:E; [|apply IH; assumption]. apply keqb_spec in E. subst k'.
+    exfalso. apply Hnot. change k with (fst (k, v)). apply in_map. exact H.
+Qed.
+
+Lemma oset_in (d : odict) k v k' v' : In (k, v) (oset d k' v') -> In (k, v) d \/ (k, v) = (k', v').
+Proof.
+  induction d as [|[k2 v2] d IHd]; cbn.
+  - intros [H|[]]. right. symmetry. exact H.
+  - destruct (keqb k2 k') eqn:E; cbn.
+    + apply keqb_spec in E. subst k2. intros [H|H]; [right; symmetry; exact H|left; right; exact H].
+    + intros [H|H]; [left; left; exact H|]. apply IHd in H. tauto.
+Qed.
+
+Lemma oupdate_in (d l : odict) k v : In (k, v) (oupdate d l) -> In (k, v) d \/ In (k, v) l.
+Proof.
+  revert d. induction l as [|[k' v'] r IH]; intros d H; [left; exact H|].
+  rewrite oupdate_cons in H. apply IH in H as [H|H]; [|right; right; exact H].
+  apply oset_in in H as [H|H]; [left; exact H|right; left; symmetry; exact H].
+Qed.
+
 (* ------------------------------------------------------------ histories of define / forget *)
 
 Section History.
@@ -414,6 +439,78 @@ Proof.
   - intros [r [Hin Hi]]. exists r. split; [exact Hin|]. unfold forgets. rewrite Hi. apply keqb_spec. reflexivity.
 Qed.
 
+(* ---- "the last word": the lookup of a name is decided by the LAST row that mentions it *)
+Fixpoint last_word (rows : list R) (n : K) : option (option V) :=
+  match rows with
+  | [] => None                                   (* nobody mentions n *)
+  | r :: rest =>
+    match last_word rest n with
+    | Some w => Some w
+    | None =>
+      match ign r with
+      | Some m => if keqb m n then Some None else None            (* forgets n *)
+      | None =>
+        match def r with
+        | Some (k, v) => if keqb k n then Some (Some v) else None  (* defines n *)
+        | None => None
+        end
+      end
+    end
+  end.
+
+Theorem oget_fold_effect rows d n :
+  NoDup (okeys d) ->
+  oget (fold_left effect rows d) n =
+  match last_word rows n with Some w => w | None => oget d n end.
+Proof.
+  revert d. induction rows as [|r rest IH]; intros d Hnd; [reflexivity|].
+  cbn [fold_left last_word]. rewrite IH by (apply effect_nodup; exact Hnd).
+  destruct (last_word rest n) as [w|]; [reflexivity|]. unfold effect.
+  destruct (ign r) as [m|].
+  - rewrite oget_opop by exact Hnd. destruct (keqb m n); reflexivity.
+  - destruct (def r) as [[k v]|]; [|reflexivity]. rewrite oget_oset. destruct (keqb k n); reflexivity.
+Qed.
+
+Lemma last_word_spec rows n w :
+  last_word rows n = Some w <->
+  exists pre r post, rows = pre ++ r :: post /\ last_word post n = None /\
+    ((exists m, ign r = Some m /\ keqb m n = true /\ w = None) \/
+     (exists k v, ign r = None /\ def r = Some (k, v) /\ keqb k n = true /\ w = Some v)).
+Proof.
+  induction rows as [|r rest IH]; cbn [last_word].
+  - split; [discriminate|]. intros [pre [r [post [H _]]]]. destruct pre; discriminate.
+  - destruct (last_word rest n) as [w'|] eqn:E.
+    + split.
+      * intros H. injection H as ->. destruct (proj1 IH eq_refl) as [pre [r0 [post [H1 H2]]]].
+        exists (r :: pre), r0, post. split; [rewrite H1; reflexivity|exact H2].
+      * intros [pre [r0 [post [H1 [H2 H3]]]]]. destruct pre as [|p pre]; cbn in H1.
+        -- injection H1 as _ Hr. subst post. congruence.
+        -- injection H1 as _ Hr. f_equal. assert (Hx : Some w' = Some w); [|injection Hx as Hx; exact Hx].
+           apply IH. exists pre, r0, post. tauto.
+    + split.
+      * intros H. exists [], r, rest. split; [reflexivity|]. split; [exact E|].
+        destruct (ign r) as [m|].
+        -- destruct (keqb m n) eqn:Em; [|discriminate]. injection H as <-. left. exists m. tauto.
+        -- destruct (def r) as [[k v]|]; [|discriminate]. destruct (keqb k n) eqn:Ek; [|discriminate].
+           injection H as <-. right. exists k, v. tauto.
+      * intros [pre [r0 [post [H1 [H2 H3]]]]]. destruct pre as [|p pre]; cbn in H1.
+        -- injection H1 as Hr0 Hp. subst r0 post.
+           destruct H3 as [[m [Hi [Hm ->]]]|[k [v [Hi [Hd [Hk ->]]]]]].
+           ++ rewrite Hi, Hm. reflexivity.
+           ++ rewrite Hi, Hd, Hk. reflexivity.
+        -- injection H1 as _ Hr. exfalso.
+           assert (Hs : None = Some w) by (apply IH; exists pre, r0, post; tauto). discriminate.
+Qed.
+
+(* the survivors' last value is the last word *)
+Corollary last_val_survivors rows n :
+  last_val (survivors rows) n = match last_word rows n with Some w => w | None => None end.
+Proof.
+  pose proof (oget_fold_effect rows [] n (NoDup_nil K)) as H.
+  rewrite fold_effect_empty, oget_oupdate in H. cbn [ODict.oget] in H.
+  destruct (last_val (survivors rows) n); exact H.
+Qed.
+
 (* ---- the same for a registry that is a plain list (duplicates kept, forget removes all) *)
 Variable key : V -> K.
 Variable ldef : R -> option V.
@@ -458,6 +555,44 @@ Proof.
       rewrite filter_app. cbn [filter].
       destruct (forgotten_in rest (key x)); cbn [negb]; [rewrite app_nil_r; reflexivity|].
       rewrite <- app_assoc. reflexivity.
+Qed.
+
+(* the list registry is the dictionary history read without keys *)
+Definition keyed (r : R) : option (K * V) := option_map (fun x => (key x, x)) (ldef r).
+
+Lemma lsurvivors_in rows x :
+  In x (lsurvivors rows) <->
+  exists pre r post, rows = pre ++ r :: post /\ ign r = None /\ ldef r = Some x /\
+                     forgotten_in post (key x) = false.
+Proof.
+  clear def. induction rows as [|r rest IH]; cbn.
+  - split; [intros []|]. intros [pre [r [post [H _]]]]. destruct pre; discriminate.
+  - assert (Hrest : (exists pre r0 post, rest = pre ++ r0 :: post /\ ign r0 = None /\ ldef r0 = Some x /\
+                       forgotten_in post (key x) = false) ->
+                    exists pre r0 post, r :: rest = pre ++ r0 :: post /\ ign r0 = None /\ ldef r0 = Some x /\
+                       forgotten_in post (key x) = false).
+    { intros [pre [r0 [post [H1 H2]]]]. exists (r :: pre), r0, post. split; [rewrite H1; reflexivity|exact H2]. }
+    assert (Hinv : forall pre r0 post, r :: rest = pre ++ r0 :: post ->
+                     (pre = [] /\ r0 = r /\ post = rest) \/ (exists pre', rest = pre' ++ r0 :: post)).
+    { intros pre r0 post H. destruct pre as [|p pre]; cbn in H; injection H as -> ->; [left; tauto|right; exists pre; reflexivity]. }
+    assert (Hback : forall (P : Prop),
+              ((exists pre r0 post, rest = pre ++ r0 :: post /\ ign r0 = None /\ ldef r0 = Some x /\
+                       forgotten_in post (key x) = false) -> P) ->
+              (ign r = None -> ldef r = Some x -> forgotten_in rest (key x) = false -> P) ->
+              (exists pre r0 post, r :: rest = pre ++ r0 :: post /\ ign r0 = None /\ ldef r0 = Some x /\
+                       forgotten_in post (key x) = false) -> P).
+    { intros P H1 H2 [pre [r0 [post [Ha [Hb [Hc Hd]]]]]].
+      destruct (Hinv pre r0 post Ha) as [[_ [-> ->]]|[pre' ->]]; [apply H2; assumption|].
+      apply H1. exists pre', r0, post. tauto. }
+    destruct (ign r) as [n|] eqn:Ei.
+    + rewrite IH. split; [exact Hrest|]. apply Hback; [tauto|discriminate].
+    + destruct (ldef r) as [y|] eqn:Ed.
+      * destruct (forgotten_in rest (key y)) eqn:Ef.
+        -- rewrite IH. split; [exact Hrest|]. apply Hback; [tauto|]. intros _ Hy Hf. injection Hy as ->. congruence.
+        -- cbn. rewrite IH. split.
+           ++ intros [H|H]; [|apply Hrest, H]. subst y. exists [], r, rest. tauto.
+           ++ apply Hback; [tauto|]. intros _ Hy _. left. congruence.
+      * rewrite IH. split; [exact Hrest|]. apply Hback; [tauto|discriminate].
 Qed.
 
 End History.
